@@ -843,3 +843,148 @@ def run_job(job):
     except Exception as e:   # noqa
         import traceback
         return {"job": job, "crash": traceback.format_exc()[-1500:], "bad": [], "steps": 0}
+
+
+# ========================================================================================== real IPv8 service objects
+def service_configuration():
+    """the default configuration, without bootstrappers and without touching the disk"""
+    from ipv8.configuration import get_default_configuration
+    conf = get_default_configuration()
+    for k in conf["keys"]:
+        k["file"] = None
+    conf["working_directory"] = ":memory:"
+    conf["logger"] = {"level": "CRITICAL"}
+    for o in conf["overlays"]:
+        o["bootstrappers"] = []
+    return conf
+
+
+def run_service_once(job):
+    import ipv8_service
+    with World(job["seed"]) as w:
+        async def main():
+            services = []
+            for i in range(3):
+                raw = w.net.endpoint(addr(40 + i))
+                sv = ipv8_service.IPv8(service_configuration(), endpoint_override=raw)
+                for ov in sv.overlays:
+                    ov.my_estimated_wan = raw.addr
+                    ov.my_estimated_lan = raw.addr
+                services.append((sv, raw))
+            sv0, raw0 = services[0]
+            steps = []          # (overlay, strategy class) of every take_step of node 0
+            for st, _ in sv0.strategies:
+                orig = st.take_step
+
+                def take_step(_o=orig, _s=st):
+                    w.events.append(("strategy-step", _s.overlay, type(_s).__name__))
+                    return _o()
+                st.take_step = take_step
+            # everybody has met everybody (no bootstrap servers in this network)
+            for sv, raw in services:
+                for other, oraw in services:
+                    if other is not sv:
+                        for ov in sv.overlays:
+                            ov.walk_to(oraw.addr)
+            target = None
+            if job["target"] is not None:
+                target = [o for o in sv0.overlays if type(o).__name__ == job["target"]][0]
+                w.nodes["svc0"], w.eps["svc0"], w.api_eps["svc0"] = target, raw0, raw0
+                w.watch(target)
+            else:
+                orig_send = raw0.send
+
+                def send(a, p, _o=orig_send):
+                    w.events.append(("send", raw0, bytes(p[:23])))
+                    return _o(a, p)
+                raw0.send = send
+            for sv, _ in services:
+                await sv.start()
+
+            async def pumper():
+                while True:
+                    while w.net.queue:
+                        w.net.deliver_one()
+                    w.drain_handler_log() if target is not None else None
+                    await asyncio.sleep(0.05)
+            pt = asyncio.ensure_future(pumper())
+            await w.loop.advance(job["unload_time"])
+            before = len(w.events)
+            n_strats = len([1 for s, _ in sv0.strategies if target is not None and s.overlay is target])
+            mine = list(sv0.overlays)
+            if job["mode"] == "stop":
+                t = asyncio.ensure_future(sv0.stop())
+            else:
+                t = asyncio.ensure_future(sv0.unload_overlay(target))
+            await asyncio.wait([t], timeout=100.0)
+            bad = []
+            if not t.done():
+                t.cancel()
+                bad.append(("service/%s-never-returns" % job["mode"], "IPv8.%s did not return within 100 virtual seconds" % job["mode"]))
+            elif t.exception() is not None:
+                bad.append(("service/%s-raised/%s" % (job["mode"], type(t.exception()).__name__), "IPv8.%s raised %r" % (job["mode"], t.exception())))
+            done = len(w.events)
+            if target is not None:
+                w.drain_handler_log()
+                done = len(w.events)
+                w.done_idx = done
+                w.pre = alpha(w, target)
+                w.after = post_observation(w, target)
+                kinds = {id(m): k for m, k in owned_managers(w, target)}
+                w.unfinished_after = [(m, n, f, kinds[id(m)]) for (m, n, f) in w.futs if id(m) in kinds and not f.done()]
+                w.open_after = [tr for tr in w.transports if not tr.closed and getattr(tr.owner, "overlay", None) is target]
+                w.probe_bad = []
+                left = [type(s).__name__ for s, _ in sv0.strategies if s.overlay is target]
+                if left:
+                    bad.append(("service/strategy-still-scheduled", "after IPv8.unload_overlay(%s) its strategies %s (of %d) are still in "
+                                "IPv8.strategies" % (job["target"], left, n_strats)))
+                if any(o is target for o in sv0.overlays):
+                    bad.append(("service/overlay-still-listed", "after IPv8.unload_overlay(%s) it is still in IPv8.overlays" % job["target"]))
+            # the rest of the network and this node's other overlays keep running: 90 s
+            await w.loop.advance(90.0)
+            if target is not None:
+                w.drain_handler_log()
+                for k, v in judge(w, done):
+                    bad.append((k + "/via-service", v))
+                for kind, obj, info in w.events[done:]:
+                    if kind == "strategy-step" and obj is target:
+                        bad.append(("late/strategy-step", "the IPv8 ticker called %s.take_step for %s after unload_overlay() returned"
+                                    % (info, job["target"])))
+            else:
+                owned = {}
+                for ov in mine:
+                    for m, k in owned_managers(w, ov):
+                        owned[id(m)] = (type(ov).__name__, k)
+                for kind, obj, info in w.events[done:]:
+                    if kind == "strategy-step":
+                        bad.append(("late/strategy-step/after-stop", "the ticker called %s.take_step after IPv8.stop() returned" % info))
+                    elif kind == "taskrun" and id(obj) in owned:
+                        bad.append(("late/task-ran/after-stop/%s:%s" % (owned[id(obj)][1], base_name(info)),
+                                    "task %r of %s's %s ran after IPv8.stop() returned" % (info, owned[id(obj)][0], owned[id(obj)][1])))
+                    elif kind == "send":
+                        bad.append(("late/send/after-stop", "a packet was sent through the node's endpoint after IPv8.stop() returned"))
+                for ov in mine:
+                    if listening(raw0, ov):
+                        bad.append(("service/still-listening-after-stop", "%s is still registered after IPv8.stop()" % type(ov).__name__))
+            pt.cancel()
+            for sv, _ in services[1:]:
+                t2 = asyncio.ensure_future(sv.stop())
+                await asyncio.wait([t2], timeout=30.0)
+            seen, out = set(), []
+            for k, v in bad:
+                if k not in seen:
+                    seen.add(k)
+                    out.append((k, v))
+            return {"bad": out, "steps_before": len([1 for e in w.events[:before] if e[0] == "strategy-step"]),
+                    "sends_before": len([1 for e in w.events[:before] if e[0] == "send"])}
+        return w.loop.run_until_complete(main())
+
+
+def run_service_job(job):
+    try:
+        res = run_service_once(job)
+        res["job"] = job
+        return res
+    except Exception:   # noqa
+        import traceback
+        return {"job": job, "crash": traceback.format_exc()[-1500:], "bad": []}
